@@ -11,7 +11,8 @@ R0 == Res(L("prim"), L("unit"))
 R1 == Res(L("prim"), L("enum"))
 NestedRes == {Res(R1, L("unit")), Res(L("prim"), R1), Opt("std", R0), Opt("dipl", R0), Box(R0), Ref(R0), Res(R0, L("unit")), Res(L("unit"), R0)}
 T2 == T1 \cup Wrap1(T1 \ T0) \cup {Res(a, b) : a \in ResArm, b \in ResArm} \cup NestedRes
-Ty == IF Depth = 1 THEN T1 \cup {Res(a, b) : a \in {L("unit"), L("prim"), Box(L("opaque"))}, b \in {L("unit"), L("enum"), L("opaque")}} ELSE T2
+Ty == IF Depth = 1 THEN T1 \cup {Res(a, b) : a \in {L("unit"), L("prim"), Box(L("opaque")), Ref(L("opaque"))},
+                                           b \in {L("unit"), L("enum"), L("opaque"), Ref(L("opaque")), Opt("std", Ref(L("opaque"))), L("str_std")}} ELSE T2
 
 HasKind(t, K) == Mentions(t, K)
 SelfTypes == {Ref(L("opaque")), MutRef(L("opaque")), L("opaque"), L("struct"), Ref(L("struct")), L("outstruct"), L("enum")}
@@ -21,8 +22,8 @@ InGrammar(p, t) ==
   /\ p # "self" => TRUE
   /\ (HasKind(t, {"cb", "cb_ref", "trait"}) => p \in {"param", "lastparam", "ret"})
   /\ (HasKind(t, {"strs"}) => p \notin {"field", "outfield"})        \* `&[DiplomatStrSlice]` has an elided lifetime: rustc refuses it in a field
-  /\ (p = "ret_elided" => HasKind(t, Borrowing))          \* otherwise identical to "ret"   \* impl Trait: argument/return position only
-  /\ (HasKind(t, {"write"}) => p \in {"param", "lastparam", "ret", "ret_elided", "field", "outfield"})
+  /\ (Elided(p) => HasKind(t, Borrowing))          \* otherwise identical to "ret"   \* impl Trait: argument/return position only
+  /\ (HasKind(t, {"write"}) => p \in {"param", "lastparam", "ret", "ret_elided", "ret_w", "ret_w_elided", "field", "outfield"})
 
 VARIABLES stage, pos, ty, urefs
 vars == <<stage, pos, ty, urefs>>
